@@ -3333,7 +3333,7 @@ def run_C08(ctx):
         fmt = rng.choice(["json", "json", "yaml-block", "yaml-flow"])
         data = json.dumps(doc) if fmt == "json" else _yaml.safe_dump(doc, default_flow_style=(fmt == "yaml-flow"), allow_unicode=True)
         other = gen.G(ctx.seed * 31 + i).rules_file(doc, depth=1) if rng.random() < 0.5 else data
-        kind = rng.choice(["v-rules", "v-rules", "v-data", "v-data", "v-both", "v-params", "v-payload", "t-rules", "t-tests", "pt", "rulegen", "nest"])
+        kind = rng.choice(["v-rules", "v-rules", "v-data", "v-data", "v-both", "v-params", "v-payload", "t-rules", "t-tests", "pt", "rulegen", "nest", "cfn-odd"])
         mut = lambda t: c08_mutate(rng, t, other) if rng.random() < 0.8 else c08_mutate(rng, c08_mutate(rng, t, other).decode("utf-8", "replace"), other)
         s = {"kind": kind, "rules_text": rules, "data_text": data}
         sflags = ["--structured", "-o", rng.choice(["json", "yaml", "sarif", "junit"]), "-S", "none"] if rng.random() < 0.5 else \
@@ -3360,6 +3360,30 @@ def run_C08(ctx):
         elif kind == "pt":
             r_ = mut(rules)
             s.update(cmd="parse-tree", files={"r.guard": r_}, argv=["parse-tree", "-r", "{DIR}/r.guard"] + rng.choice([[], ["-p"], ["-y"]]), mutated_rules=r_)
+        elif kind == "cfn-odd":
+            # well-formed documents that are NOT well-formed templates: resources without a Type, with a Type or a
+            # cdk path that is not a string, scalar resources - evaluated with rules that fail on them, console output
+            d2 = g.cfn_doc()
+            if not isinstance(d2.get("Resources"), dict) or not d2["Resources"]:
+                d2["Resources"] = {"a": {"Type": "X", "Properties": {"Size": 2}}}
+            for rn in list(d2["Resources"]):
+                rv = d2["Resources"][rn]
+                if not isinstance(rv, dict):
+                    continue
+                m_ = rng.randrange(7)
+                if m_ == 0:
+                    rv.pop("Type", None)
+                elif m_ == 1:
+                    rv["Type"] = rng.choice([5, None, ["AWS::S3::Bucket"], {"Ref": "x"}, True, 1.5])
+                elif m_ == 2:
+                    rv["Metadata"] = {"aws:cdk:path": rng.choice([7, None, ["a"], {"b": 1}])}
+                elif m_ == 3:
+                    d2["Resources"][rn] = rng.choice([1, "x", None, [rv]])
+                elif m_ == 4:
+                    rv.setdefault("Properties", {})["deep"] = {"Resources": {"inner": {"Properties": {"Size": 3}}}}
+            rr = rules + "rule odd1 { Resources.*.Properties.Size == 'never' }\nrule odd2 { Resources.*.Properties.* exists\nResources.*.* != 'never-equal' <<m>>\nResources.*.Properties.deep.Resources.inner.Properties.Size == 0 }\n"
+            s.update(cmd="validate", files={"r.guard": rr, "d.yaml": json.dumps(d2)},
+                     argv=["validate", "-r", "{DIR}/r.guard", "-d", "{DIR}/d.yaml"] + rng.choice([[], ["-S", "all"], ["-S", "all", "-v"], ["-o", "json"], ["-o", "yaml"], ["-t", "CFNTemplate"]]))
         elif kind == "rulegen":
             t = json.dumps(c19_template(g, clean=False))
             if rng.random() < 0.3:
